@@ -147,7 +147,18 @@ func main() {
 			c.Cap("inconclusive: " + r.in)
 		}
 		if r.viol != "" {
-			c.ViolateConfirmed("hole", fmt.Sprintf("hole:%s/%s:attempt%d", r.hc.V, r.hc.C, r.hc.Attempt), r.viol, r.hc, 2)
+			// the cases run in parallel on one loopback interface and probe port ranges, so they can disturb each
+			// other: the deciding experiment is the case run alone, twice
+			v1, _ := run(r.hc)
+			v2, _ := run(r.hc)
+			switch {
+			case v1 != "" && v2 != "":
+				c.Violate("hole", fmt.Sprintf("hole:%s/%s:attempt%d", r.hc.V, r.hc.C, r.hc.Attempt), v1, r.hc)
+			case v1 == "" && v2 == "":
+				c.Note(fmt.Sprintf("passed_alone:%s/%s:%d", r.hc.V, r.hc.C, r.hc.Attempt), "failed once among 36 parallel cases, passed twice when run alone")
+			default:
+				c.Cap("a failure reproduced only once in two runs alone: " + r.viol)
+			}
 		}
 	}
 	c.Sample(cases[0])
